@@ -329,6 +329,21 @@ def c10():
     )
 
 
+# ------------------------------------------------------------------------------------------- C11
+@prop('C11')
+def c11():
+    import gen
+    files = gen.c11_files(os.path.join(GEN, 'C11'), CUR_TIER)
+    qs = [Q(name, path, 8, tier=t, timeout=900, portfolio=name.startswith('perm')) for name, path, t in files]
+    return dict(
+        queries=qs,
+        level='model_checking',
+        level_text='Bounded: range_is / starts_with / ends_with (element lists of values and of matchers, and range forms stored by copy or as a span) and range_all_of / any_of / none_of equal their definitions for all 32-bit element values on std::array, C arrays and std::vector of length <=3 (4) with element lists of length <=3; range_is_permutation / range_includes equal the multiset definition for value lists, and the documented first-fit/swap-remove assignment for overlapping matchers, over a 4-value alphabet (duplicates inside).',
+        bound='ranges of length 0..3 quick / 0..4 thorough, element lists 0..3 (permutation / includes: 2), all int values (permutation / includes: values in 0..3 so that duplicates are frequent)',
+        outside='std::list / std::deque (node containers), a single plain element given to range_is_permutation / range_includes (selects the range-form overload; not a documented form)',
+    )
+
+
 # ------------------------------------------------------------------------------------------- C15
 def mismatch_queries(nn, quick_na=2, quick_ns=1):
     qs = []
